@@ -116,12 +116,6 @@ pub proof fn lemma_undo_inverts_forward(e: JournalEntry, a: Address, before: nat
 {}
 
 // ---- the returned vector ----
-/// TRUSTED: std HashMap::into_iter yields every pair exactly once, in an unspecified order
-#[verifier::external_body] pub fn into_pairs<K, V>(m: HashMap<K, V>) -> (v: Vec<(K, V)>)
-    ensures forall|i: int| 0 <= i < v@.len() ==> #[trigger] m@.contains_key(v@[i].0) && m@[v@[i].0] == v@[i].1,
-        forall|k: K| #[trigger] m@.contains_key(k) ==> exists|i: int| 0 <= i < v@.len() && (#[trigger] v@[i]).0 == k,
-        forall|i: int, j: int| 0 <= i < j < v@.len() ==> (#[trigger] v@[i]).0 != (#[trigger] v@[j]).0,
-{ unimplemented!() }
 /// C13: a reported candidate is an account whose FIRST relevant debit is entry f, with its present balance and
 /// the balance reconstructed for the point just before f
 spec fn reported_at(d: DelegatedDebit, f: int, es: Seq<JournalEntry>, start: int, tx: TxEnv, state: Map<Address, Account>) -> bool {
